@@ -120,6 +120,14 @@ fn corpus() -> Vec<String> {
         "return function(...: number): ...string end", "type T = typeof(`{1}`)", "return ({})[1] :: any",
         "goto x", "::x::", "return --[==[ c ]==] 1", "--[[ unterminated", "return [[ unterminated", "return 'unterminated",
         "return `unterminated {", "return `{`", "return }", "return )", "end", "local function", "for i = 1 do end",
+        // a byte order mark / a shebang line in front of valid code (rejected today: must stay an error value, or be
+        // handled all the way through every generator)
+        "\u{feff}a=1", "\u{feff}return 1\n", "\u{feff}local function add(a, b)\n  return a + b\nend\nreturn add(1, 2)\n",
+        "#!/usr/bin/env lua\nprint(1)\n", "#!/usr/bin/env lua\nlocal unused = 1\nreturn 2", "#!\n", "#!/bin/lua",
+        "\u{feff}#!/usr/bin/env lua\nreturn 1", "return 1\n\u{feff}", "--!strict\n#!x\nreturn 1",
+        // interpolated strings whose first value starts with a table: the only thing between `{` `{` is trivia
+        "return `{ {1} }`", "return `{ {} :: any }`", "return `{ {} == nil }`", "return `a{ {x = 1} }b{ {} }`",
+        "return `{ --[[c]] {1} }`", "return `{\n{1}\n}`", "return `{ { `{ {2} }` } }`", "return `{ ({1}) }`", "return `{ #{1} }`",
     ]
     .iter()
     .map(|s| s.replace("\\n", "\n"))
@@ -217,9 +225,19 @@ fn main() {
         if hung {
             break;
         }
-        if check_parse(snippet.as_bytes(), "corpus", &mut hung) {
+        // process() runs whatever the parse verdict is: an input the parser rejects must come back as an error
+        // value naming the file, one it accepts must give output that parses
+        check_parse(snippet.as_bytes(), "corpus", &mut hung);
+        {
             for generator in GENERATORS {
-                for rules in ["", "\"remove_spaces\"", "\"compute_expression\", \"remove_unused_variable\""] {
+                for rules in [
+                    "",
+                    "\"remove_spaces\"",
+                    "\"compute_expression\", \"remove_unused_variable\"",
+                    "\"remove_comments\", \"remove_spaces\"",
+                    "{ rule: \"append_text_comment\", text: \"generated\" }",
+                    "{ rule: \"append_text_comment\", text: \"generated\", location: \"end\" }, \"remove_spaces\"",
+                ] {
                     let config = format!("{{ generator: {}, rules: [{}] }}", generator, rules);
                     process_runs += 1;
                     match process_guarded(snippet.clone(), config.clone()) {
@@ -228,7 +246,12 @@ fn main() {
                                 report("OUTPUT-UNPARSABLE", &output, &config, snippet.as_bytes());
                             }
                         }
-                        Outcome::Done(Err(_)) => rule_errors += 1,
+                        Outcome::Done(Err(msg)) => {
+                            rule_errors += 1;
+                            if !msg.contains("main.lua") {
+                                report("ERROR-WITHOUT-FILE", &msg, &config, snippet.as_bytes());
+                            }
+                        }
                         Outcome::Panic(msg) => report("PROCESS-PANIC", &msg, &config, snippet.as_bytes()),
                         Outcome::Hang => {
                             report("PROCESS-HANG", "no result within the time limit", &config, snippet.as_bytes());
@@ -327,6 +350,44 @@ fn main() {
                                 hung = true;
                             }
                         }
+                    }
+                }
+            }
+        }
+
+        // 3c. the same program behind a byte order mark / a shebang line, and one mutation of it, through process()
+        //     (whatever the parser says about them: error value naming the file, or output that parses)
+        if case % 4 == 0 {
+            let mut variants: Vec<Vec<u8>> = Vec::new();
+            variants.push(format!("\u{feff}{}", source).into_bytes());
+            variants.push(format!("#!/usr/bin/env lua\n{}", source).into_bytes());
+            let mut m = source.as_bytes().to_vec();
+            let at = rng.below(m.len());
+            m[at] = *rng.pick(alphabet);
+            variants.push(m);
+            for bytes in variants {
+                let text = String::from_utf8_lossy(&bytes).into_owned();
+                let k = rng.below(3);
+                let rules: Vec<&str> = (0..k).map(|_| *rng.pick(RULES)).collect();
+                let generator = *rng.pick(&["\"retain_lines\"", "\"retain_lines\"", "\"dense\"", "\"readable\""]);
+                let config = format!("{{ generator: {}, rules: [{}] }}", generator, rules.join(", "));
+                process_runs += 1;
+                match process_guarded(text, config.clone()) {
+                    Outcome::Done(Ok(output)) => {
+                        if !check_parse(output.as_bytes(), "darklua-output", &mut hung) {
+                            report("OUTPUT-UNPARSABLE", &output, &config, &bytes);
+                        }
+                    }
+                    Outcome::Done(Err(msg)) => {
+                        rule_errors += 1;
+                        if !msg.contains("main.lua") {
+                            report("ERROR-WITHOUT-FILE", &msg, &config, &bytes);
+                        }
+                    }
+                    Outcome::Panic(msg) => report("PROCESS-PANIC", &msg, &config, &bytes),
+                    Outcome::Hang => {
+                        report("PROCESS-HANG", "no result within the time limit", &config, &bytes);
+                        hung = true;
                     }
                 }
             }
